@@ -93,6 +93,15 @@ pub fn free_zero(fl: &Flags, operands: &[f64], r: f64, sign_sensitive: bool) -> 
     Ok(())
 }
 
+/// a product or quotient in the subnormal range is rounded to a grid as coarse as the value itself: an operand that is only known
+/// to 1e-9 (an earlier tolerance-checked operation) then decides between neighbouring results (0.5 deg rad * 5e-324 is 0 or 5e-324)
+pub fn subnormal_after_inexact(fl: &Flags, a: f64, b: f64, r: f64) -> R<()> {
+    if fl.tol.get() > 0.0 && !fl.scope_only.get() && a != 0.0 && b != 0.0 && r.is_finite() && r.abs() < f64::MIN_POSITIVE * 1e10 {
+        return Err(Stop::Unspec("InexactOperandIntoSubnormalRange"));
+    }
+    Ok(())
+}
+
 pub fn sgn_f64(x: f64, fl: &Flags) -> R<f64> {
     if x.is_nan() { return Err(Stop::Unspec("SignOfNaN")); }
     if x == 0.0 { fl.zero_sign_free.set(true); return Ok(0.0); }
@@ -220,7 +229,8 @@ impl Sem for F64Sem {
     fn bin(&self, op: &str, a: f64, b: f64) -> R<f64> {
         match op {
             "add" | "sub" => { let r = if op == "add" { a + b } else { a - b }; ill_conditioned(&self.flags, a, b, r)?; Ok(r) }
-            "mul" => Ok(a * b), "div" => { free_zero(&self.flags, &[b], a / b, false)?; Ok(a / b) }
+            "mul" => { subnormal_after_inexact(&self.flags, a, b, a * b)?; Ok(a * b) }
+            "div" => { free_zero(&self.flags, &[b], a / b, false)?; subnormal_after_inexact(&self.flags, a, b, a / b)?; Ok(a / b) }
             "mod" => { if self.flags.tol.get() > 0.0 && !self.flags.scope_only.get() { return Err(Stop::Unspec("RemainderOfInexactOperand")); } Ok(a % b) }
             "pow" => { amplifies(&self.flags, b)?; neg_base_inexact(&self.flags, a)?; if a.fract() == 0.0 && b.fract() == 0.0 && b < 0.0 { self.flags.int_negpow.set(true); } free_zero(&self.flags, &[a], a.powf(b), false)?; Ok(a.powf(b)) }
             _ => Err(Stop::Unspec("UnknownBinary")),
